@@ -14,7 +14,8 @@ import checklib
 TRUSTED = [
     "bridge/trans_helpers.py: fail-closed ast translator (recognised forms listed in its docstring) of "
     "assert_two_body_decay, assert_isobar_topology, get_sibling_state_id, determine_attached_final_state, "
-    "is_opposite_helicity_state, get_parent_id, list_decay_chain_ids (helicity/decay.py), __get_boost_chain_ids "
+    "is_opposite_helicity_state, get_parent_id, list_decay_chain_ids, assert_three_body_decay, get_spectator_id, "
+    "get_decay_product_ids (helicity/decay.py), __get_boost_chain_ids "
     "(kinematics/lorentz.py) and create_spin_range (helicity/align/_spin.py) from the CURRENT source text into Gallina; "
     "while loops become fuelled recursion (running out of fuel is the error value EFuel, excluded by the theorems); "
     "functools.cache on a pure function is treated as the identity decorator",
